@@ -1,7 +1,11 @@
 //verif:pkg ds/shrinkingmap
 package shrinkingmap
 
-import "verifrt"
+import (
+	"sync"
+
+	"verifrt"
+)
 
 // Property C12 (ShrinkingMap): a plain map whose shrinking is unobservable.
 
@@ -133,4 +137,27 @@ func H_C12_shrinkingmap() {
 		})
 		verifrt.Assert(seen == len(m.k) && len(sm.Keys()) == len(m.k) && len(sm.Values()) == len(m.k) && len(sm.AsMap()) == len(m.k), "ShrinkingMap: enumeration size differs from a plain map")
 	}
+}
+
+// H_C12_shrinkingmap_conc: the map is documented as thread-safe; two concurrent GetOrCreate calls for one
+// absent key create it exactly once and both see the same value.
+//
+//verif:h prop=C12 preempt=2/3 cover=done
+func H_C12_shrinkingmap_conc() {
+	sm := New[uint8, int]()
+	var wg sync.WaitGroup
+	var v [2]int
+	var created [2]bool
+	wg.Add(2)
+	for t := 0; t < 2; t++ {
+		go func(t int) {
+			defer wg.Done()
+			verifrt.MustFinish()
+			v[t], created[t] = sm.GetOrCreate(1, func() int { return 10 + t })
+		}(t)
+	}
+	wg.Wait()
+	verifrt.Cover("done")
+	verifrt.Assert(created[0] != created[1], "two concurrent GetOrCreate calls for one key both (or neither) report creating it")
+	verifrt.Assert(v[0] == v[1], "two concurrent GetOrCreate calls for one key returned different values")
 }
